@@ -470,6 +470,91 @@ func c07Graph(x *core.Ctx, s *ast.Schema, mg *tsys.Merged) {
 			}
 		}
 	}
+	// the exported helpers beside the maps (callers such as gqlgen use these, not the maps)
+	sameDefs := func(a, b []*ast.Definition) bool {
+		if len(a) != len(b) {
+			return false
+		}
+		for i := range a {
+			if a[i] != b[i] {
+				return false
+			}
+		}
+		return true
+	}
+	for n, sd := range s.Types {
+		if sd == nil {
+			continue
+		}
+		x.Count("helper_checks")
+		if !sameDefs(s.GetPossibleTypes(sd), s.PossibleTypes[n]) {
+			bad("helper:GetPossibleTypes", fmt.Sprintf("GetPossibleTypes(%s) has %d entries, PossibleTypes[%s] has %d (or other definitions)", n, len(s.GetPossibleTypes(sd)), n, len(s.PossibleTypes[n])), "the map's entry")
+		}
+		if !sameDefs(s.GetImplements(sd), s.Implements[n]) {
+			bad("helper:GetImplements", fmt.Sprintf("GetImplements(%s) has %d entries, Implements[%s] has %d (or other definitions)", n, len(s.GetImplements(sd)), n, len(s.Implements[n])), "the map's entry")
+		}
+		k := sd.Kind
+		if sd.IsLeafType() != (k == ast.Scalar || k == ast.Enum) || sd.IsAbstractType() != (k == ast.Interface || k == ast.Union) ||
+			sd.IsCompositeType() != (k == ast.Object || k == ast.Interface || k == ast.Union) || sd.IsInputType() != (k == ast.Scalar || k == ast.Enum || k == ast.InputObject) {
+			bad("helper:kind-predicate("+string(k)+")", fmt.Sprintf("%s %s: leaf=%v abstract=%v composite=%v input=%v", k, n, sd.IsLeafType(), sd.IsAbstractType(), sd.IsCompositeType(), sd.IsInputType()), "predicates that follow the kind")
+		}
+		if !sd.OneOf(n) || !sd.OneOf("\x00", n) || sd.OneOf() || sd.OneOf(n+"_") {
+			bad("helper:OneOf", "Definition.OneOf does not answer by name for "+n, "true exactly for the own name")
+		}
+		for _, f := range sd.Fields {
+			if sd.Fields.ForName(f.Name) == nil || sd.Fields.ForName(f.Name).Name != f.Name {
+				bad("helper:FieldList.ForName", n+"."+f.Name+" not found by ForName", "every listed field is found")
+			}
+			ts := []*ast.Type{f.Type}
+			for _, a := range f.Arguments {
+				if f.Arguments.ForName(a.Name) == nil || f.Arguments.ForName(a.Name).Name != a.Name {
+					bad("helper:ArgumentDefinitionList.ForName", n+"."+f.Name+"("+a.Name+") not found by ForName", "every listed argument is found")
+				}
+				ts = append(ts, a.Type)
+			}
+			for _, t := range ts {
+				if t == nil {
+					continue
+				}
+				in := t
+				for in.Elem != nil {
+					in = in.Elem
+				}
+				if t.Name() != in.NamedType || !t.IsCompatible(t) || t.Dump() != t.String() {
+					bad("helper:Type", fmt.Sprintf("%s: Name()=%q IsCompatible(self)=%v Dump()=%q", t.String(), t.Name(), t.IsCompatible(t), t.Dump()), "innermost name, reflexive compatibility, Dump = String")
+				}
+				if t.NonNull {
+					nullable := *t
+					nullable.NonNull = false
+					if !t.IsCompatible(&nullable) || nullable.IsCompatible(t) {
+						bad("helper:Type.IsCompatible(nullability)", t.String()+" vs its nullable form", "T! fits T, T does not fit T!")
+					}
+				}
+			}
+		}
+		if sd.Fields.ForName("\x00none") != nil {
+			bad("helper:FieldList.ForName", n+": a field found for a name nothing has", "nil")
+		}
+		for _, ev := range sd.EnumValues {
+			if sd.EnumValues.ForName(ev.Name) == nil || sd.EnumValues.ForName(ev.Name).Name != ev.Name {
+				bad("helper:EnumValueList.ForName", n+"."+ev.Name+" not found by ForName", "every listed value is found")
+			}
+		}
+		for _, d := range sd.Directives {
+			if sd.Directives.ForName(d.Name) == nil || sd.Directives.ForName(d.Name).Name != d.Name {
+				bad("helper:DirectiveList.ForName", n+" @"+d.Name+" not found by ForName", "every applied directive is found")
+			}
+			cnt := 0
+			for _, d2 := range sd.Directives {
+				if d2.Name == d.Name {
+					cnt++
+				}
+			}
+			if len(sd.Directives.ForNames(d.Name)) != cnt {
+				bad("helper:DirectiveList.ForNames", fmt.Sprintf("%s @%s: ForNames gives %d of %d", n, d.Name, len(sd.Directives.ForNames(d.Name)), cnt), "all applications of the name")
+			}
+		}
+	}
 	for n, l := range s.PossibleTypes {
 		if mg.Types[n] == nil && len(l) > 0 {
 			bad("possible-types:unknown-key", "PossibleTypes has key "+n, "only defined composite types")
